@@ -97,6 +97,8 @@ func (p *Program) VerifyFunc(c *Contract) (res *FuncResult) {
 		siteCnt: map[string]int{}, Inlined: map[string]bool{}, UsedContracts: map[string]bool{}, UsedAssumed: map[string]bool{}}
 	res.Exec = ex
 	CurDefs = map[string]*Term{}
+	SymRanges = map[string][2]*big.Int{}
+	ex.SymRangesMap = SymRanges
 	if c.Options["nlmul"] == "uf" {
 		NLMulUF = true
 		NLMulComm = nil
